@@ -62,7 +62,65 @@ type OpIn struct {
 	Bind      string `json:"bind"` // with | session
 	Tag       int    `json:"tag"`
 	Cancelled bool   `json:"cancelled"`
+	// Derive: the caller derives a further session from the context-bound handle WITHOUT repeating the
+	// context, and runs the operation on it: "" | one or more of new_db, skip_hooks, prepare_stmt,
+	// skip_default_tx, disable_nested_tx, allow_global_update, full_save_associations,
+	// propagate_unscoped, query_fields, initialized, batch_size joined by "+"
+	Derive string `json:"derive,omitempty"`
 }
+
+func deriveSession(d string) *gorm.Session {
+	s := &gorm.Session{}
+	for _, o := range strings.Split(d, "+") {
+		switch o {
+		case "new_db":
+			s.NewDB = true
+		case "skip_hooks":
+			s.SkipHooks = true
+		case "prepare_stmt":
+			s.PrepareStmt = true
+		case "skip_default_tx":
+			s.SkipDefaultTransaction = true
+		case "disable_nested_tx":
+			s.DisableNestedTransaction = true
+		case "allow_global_update":
+			s.AllowGlobalUpdate = true
+		case "full_save_associations":
+			s.FullSaveAssociations = true
+		case "propagate_unscoped":
+			s.PropagateUnscoped = true
+		case "query_fields":
+			s.QueryFields = true
+		case "initialized":
+			s.Initialized = true
+		case "batch_size":
+			s.CreateBatchSize = 100
+		default:
+			panic("unknown derive option " + o)
+		}
+	}
+	return s
+}
+
+func has(d, o string) bool {
+	for _, x := range strings.Split(d, "+") {
+		if x == o {
+			return true
+		}
+	}
+	return false
+}
+
+// the caller's own Session literal, as the model sees it
+func deriveLit(d string) string {
+	return lib.App("mk_slit", "FAbsent", lib.Bool(has(d, "new_db")), lib.Bool(has(d, "initialized")), lib.Bool(has(d, "skip_hooks") || has(d, "prepare_stmt")))
+}
+
+var derivations = []string{"new_db", "new_db+skip_hooks", "new_db+prepare_stmt", "skip_hooks", "prepare_stmt",
+	"new_db+skip_default_tx", "new_db+disable_nested_tx", "new_db+allow_global_update", "new_db+full_save_associations",
+	"new_db+propagate_unscoped", "new_db+query_fields", "new_db+initialized", "new_db+batch_size",
+	"new_db+skip_hooks+prepare_stmt", "initialized+skip_hooks"}
+
 type Input struct {
 	Prep bool   `json:"prepare_stmt"`
 	Ops  []OpIn `json:"ops"`
@@ -448,6 +506,9 @@ func runCase(in Input, facts srcfacts.Facts) Obs {
 		} else {
 			h = db.WithContext(ctx)
 		}
+		if op.Derive != "" {
+			h = h.Session(deriveSession(op.Derive))
+		}
 		rec.Reset()
 		var oo OpOut
 		func() {
@@ -482,7 +543,7 @@ func runCase(in Input, facts srcfacts.Facts) Obs {
 				fmt.Sscan(e.Tag[4:], &tag)
 			}
 			ev := EvOut{Kind: kind, Query: e.Query, Tx: e.Tx != 0, Tag: tag, Failed: e.Err != "", Done: e.CtxErr}
-			ev.Path, ev.Site, ev.Inner = attribute(f, e, in.Prep)
+			ev.Path, ev.Site, ev.Inner = attribute(f, e, in.Prep || has(op.Derive, "prepare_stmt"))
 			oo.Events = append(oo.Events, ev)
 		}
 		o.Ops = append(o.Ops, oo)
@@ -580,9 +641,9 @@ func siteForm(facts srcfacts.Facts, key string) string {
 func gLit(facts srcfacts.Facts, key string) string {
 	l, ok := facts.Find(key)
 	if !ok {
-		return "(mk_slit FUnknown false false)"
+		return "(mk_slit FUnknown false false false)"
 	}
-	return lib.App("mk_slit", gForm(l.CtxForm), lib.Bool(l.NewDB == "true" || l.NewDB == "expr"), lib.Bool(l.Init))
+	return lib.App("mk_slit", gForm(l.CtxForm), lib.Bool(l.NewDB == "true" || l.NewDB == "expr"), lib.Bool(l.Init), lib.Bool(l.Own()))
 }
 
 func term(in Input, o Obs, facts srcfacts.Facts) string {
@@ -591,9 +652,12 @@ func term(in Input, o Obs, facts srcfacts.Facts) string {
 		evs := make([]string, len(o.Ops[i].Events))
 		for j, e := range o.Ops[i].Events {
 			kind := map[string]string{"begin": "KBegin", "prepare": "KPrepare", "exec": "KExec", "query": "KQuery"}[e.Kind]
-			path := make([]string, len(e.Path))
-			for k, p := range e.Path {
-				path[k] = gLit(facts, p)
+			path := []string{}
+			if op.Derive != "" {
+				path = append(path, deriveLit(op.Derive)) // outermost: the caller's own derivation
+			}
+			for _, p := range e.Path {
+				path = append(path, gLit(facts, p))
 			}
 			inner := "None"
 			if e.Inner != "" {
@@ -611,7 +675,7 @@ func shapeOf(in Input) string {
 	var sb strings.Builder
 	fmt.Fprintf(&sb, "prep%v", in.Prep)
 	for _, op := range in.Ops {
-		fmt.Fprintf(&sb, "|%s/%s/%v", op.Fam, op.Bind, op.Cancelled)
+		fmt.Fprintf(&sb, "|%s/%s/%v/%s", op.Fam, op.Bind, op.Cancelled, op.Derive)
 	}
 	return sb.String()
 }
@@ -636,6 +700,7 @@ func main() {
 			out.Count("family", in.Ops[i].Fam)
 			out.Count("bind", in.Ops[i].Bind)
 			out.Count("cancelled", fmt.Sprint(in.Ops[i].Cancelled))
+			out.Count("derived_session", "{"+in.Ops[i].Derive+"}")
 			errk := "nil"
 			if o.Ops[i].Err != "" {
 				errk = "error"
@@ -685,7 +750,23 @@ func main() {
 			add("cancelled", Input{Prep: prep, Ops: []OpIn{{Fam: f.name, Bind: lib.Pick(r, []string{"with", "session"}), Tag: tag, Cancelled: true}}})
 		}
 	}
-	budget := 330
+	// a further session derived from the context-bound handle without repeating the context:
+	// Session{NewDB: true, <each other option>} and friends, write / read / transaction, live and pre-cancelled
+	for _, d := range derivations {
+		for _, fn := range []string{"create_assoc", "preload", "transaction", "updates"} {
+			if a.Tier != "thorough" && (fn == "transaction" || fn == "updates") && !(strings.Contains(d, "skip_hooks") || strings.Contains(d, "prepare_stmt") || d == "new_db") {
+				continue
+			}
+			for _, cancelled := range []bool{false, true} {
+				tag++
+				add("derived", Input{Prep: false, Ops: []OpIn{{Fam: fn, Bind: lib.Pick(r, []string{"with", "session"}), Tag: tag, Cancelled: cancelled, Derive: d}}})
+			}
+		}
+		tag++
+		add("derived", Input{Prep: true, Ops: []OpIn{{Fam: "create_assoc", Bind: "with", Tag: tag, Derive: d}, {Fam: "preload_nested", Bind: "session", Tag: tag + 1, Derive: d, Cancelled: true}}})
+		tag++
+	}
+	budget := 480
 	if a.Tier == "thorough" {
 		budget = 2500
 	}
@@ -704,11 +785,15 @@ func main() {
 					f = *ff
 				}
 			}
-			in.Ops = append(in.Ops, OpIn{Fam: f.name, Bind: lib.Pick(r, []string{"with", "session"}), Tag: tag, Cancelled: r.Chance(1, 8)})
+			d := ""
+			if r.Chance(1, 3) {
+				d = lib.Pick(r, derivations)
+			}
+			in.Ops = append(in.Ops, OpIn{Fam: f.name, Bind: lib.Pick(r, []string{"with", "session"}), Tag: tag, Cancelled: r.Chance(1, 8), Derive: d})
 		}
 		add("main", in)
 	}
-	out.Extra["rule"] = "cases = programs of 1..4 operations on one database, each operation from one of " + fmt.Sprint(len(families)) + " families (Create with belongs-to/has-many/many2many values, CreateInBatches, Save existing/missing, Updates, Delete with Select(associations), Preload single/nested/clause.Associations, Joins, Association Append/Replace/Delete/Clear/Count/Find, FindInBatches with a statement from the batch handle, Count, Pluck, First/Take/Last, FirstOrCreate, Scan, Rows, Row, Raw, Exec, Transaction plain/nested with save points/rolled back, Begin..Commit) started from db.WithContext(ctx) or db.Session(&Session{Context: ctx}) with a distinct tag, PrepareStmt on/off, 1/8 pre-cancelled; distinct = distinct (PrepareStmt, family/bind/cancelled sequence); non-trivial = at least 2 driver events observed"
+	out.Extra["rule"] = "cases = programs of 1..4 operations on one database, each operation from one of " + fmt.Sprint(len(families)) + " families (Create with belongs-to/has-many/many2many values, CreateInBatches, Save existing/missing, Updates, Delete with Select(associations), Preload single/nested/clause.Associations, Joins, Association Append/Replace/Delete/Clear/Count/Find, FindInBatches with a statement from the batch handle, Count, Pluck, First/Take/Last, FirstOrCreate, Scan, Rows, Row, Raw, Exec, Transaction plain/nested with save points/rolled back, Begin..Commit) started from db.WithContext(ctx) or db.Session(&Session{Context: ctx}) with a distinct tag, optionally through a further caller-derived session Session{NewDB / SkipHooks / PrepareStmt / SkipDefaultTransaction / DisableNestedTransaction / AllowGlobalUpdate / FullSaveAssociations / PropagateUnscoped / QueryFields / Initialized / CreateBatchSize combinations} that does not repeat the context, PrepareStmt on/off, 1/8 pre-cancelled; distinct = distinct (PrepareStmt, family/bind/cancelled sequence); non-trivial = at least 2 driver events observed"
 	lib.Must(out.Flush())
 }
 
